@@ -91,6 +91,7 @@ Section Sim.
      [sg'] that has the shape of the initial store *)
   Definition sim_at (f : nat) : Prop :=
     forall ps top lm gf D L D' rho sg rho' tr o,
+    implb lm (no_top_tuple ps) = true ->
     g_block gf top D L ps = Some D' ->
     incl (anns_in ps) (prog_anns P) -> incl (augs_in ps) (prog_augs P) ->
     Rel D L rho sg -> Pend (snd (trm top lm D ps)) sg ->
@@ -110,6 +111,7 @@ Section Sim.
   Proof. intro HI. apply Fr_mono. intros x H. apply tmem_In. apply HI. apply tmem_In. exact H. Qed.
 
   Lemma sim_tail f (IH : sim_at f) top lm gf' D D1 L D' rho1 sg s1 p rest nsp gsp e1 F1 rho2 e2 o :
+    implb lm (no_top_tuple rest) = true ->
     g_block gf' top D1 L rest = Some D' ->
     incl (anns_in rest) (prog_anns P) -> incl (augs_in rest) (prog_augs P) ->
     ext D D1 ->
@@ -128,10 +130,10 @@ Section Sim.
       /\ (top && lm = false -> loc = [])
       /\ (o = ONormal -> Rel D' L rho2 (loc ++ sg') /\ ConstsOk (gsp ++ snd (trm top lm D1 rest))).
   Proof.
-    intros HG Han Hau HE HR HP HF HW HH HC HX.
+    intros HT HG Han Hau HE HR HP HF HW HH HC HX.
     assert (HP1 : Pend (snd (trm top lm D1 rest)) s1).
     { eapply Pend_frame; [exact HP|exact HF|]. intros g Hg. eapply fresh_not_written; eauto. }
-    destruct (IH rest top lm gf' D1 L D' rho1 s1 rho2 e2 o HG Han Hau HR HP1 HX) as (loc & sg' & F2 & C2 & Fr2 & R2 & L2 & N2).
+    destruct (IH rest top lm gf' D1 L D' rho1 s1 rho2 e2 o HT HG Han Hau HR HP1 HX) as (loc & sg' & F2 & C2 & Fr2 & R2 & L2 & N2).
     exists loc, sg', (S (Nat.max F1 F2)). split; [|split; [|split; [|split]]].
     - intros F' HF'. destruct F' as [|F'']; [lia|]. rewrite HH by lia. rewrite C2 by lia. reflexivity.
     - cbn [wr_in]. eapply Fr_trans_same; [apply Fr_app_l; exact HF|apply Fr_app_r; exact Fr2].
@@ -140,12 +142,88 @@ Section Sim.
     - intro Ho. destruct (N2 Ho) as [N21 N22]. split; [exact N21|]. apply Forall_app. auto.
   Qed.
 
+  (* ---- tuple declaration of new globals ---- *)
+  Lemma tuple_head D L rho : forall xs es vs Dc rhoc (sgc : StmtSem.cstore) gsr,
+    length xs = length es ->
+    pevals sem es rho = Some vs ->
+    (forall e, In e es -> fv_ok D L e = true /\ In e (prog_anns P)) ->
+    NoDup xs ->
+    (forall x, In x xs -> tlookup x Dc = None /\ tmem x L = false /\ tmem x (map fst D) = false) ->
+    Rel D L rho sgc -> Rel Dc L rhoc sgc ->
+    Pend (tup_globals xs es ++ gsr) sgc ->
+    (forall g, In g gsr -> ~ In (g_name g) xs) ->
+    exists sg1,
+      Fr xs sgc sg1 /\
+      Rel (Dc ++ combine xs (map a_ty es)) L (pbinds xs vs rhoc) sg1 /\
+      ConstsOk (tup_globals xs es) /\
+      (forall restC s2 e2 o F2, (forall F', (F2 <= F')%nat -> cexec F' sg1 restC = Some (s2, e2, o)) ->
+         exists F, forall F', (F <= F')%nat -> cexec F' sgc (tup_nodes xs es ++ restC) = Some (s2, e2, o)).
+  Proof.
+    induction xs as [|x xr IH]; intros es vs Dc rhoc sgc gsr Hlen Hev Hes Hnd Hnew HR0 HRc HP Hgsr.
+    - destruct es; [|discriminate]. cbn in Hev. inversion Hev; subst vs.
+      exists sgc. cbn [combine map tup_globals tup_nodes pbinds app]. rewrite app_nil_r.
+      split; [apply Fr_refl|]. split; [exact HRc|]. split; [constructor|].
+      intros restC s2 e2 o F2 HC. exists F2. exact HC.
+    - destruct es as [|e er]; [discriminate|]. cbn [length] in Hlen. injection Hlen as Hlen.
+      cbn [pevals] in Hev. destruct (peval e rho) as [v|] eqn:Ev; [|discriminate].
+      destruct (pevals sem er rho) as [vr|] eqn:Evr; [|discriminate]. inversion Hev; subst vs. clear Hev.
+      destruct (Hes e (or_introl eq_refl)) as [Hfv Hin].
+      destruct (eval_ok D L rho sgc e v HR0 Hfv Hin Ev) as [Hc Hv].
+      destruct (Hnew x (or_introl eq_refl)) as (HxD & HxL & HxD0).
+      inversion Hnd as [|? ? Hxr Hnd']; subst.
+      cbn [tup_globals tup_nodes combine map pbinds app] in *.
+      set (g := {| g_name := x; g_ty := a_ty e; g_init := if closed_const e then XE (a_id e) else XDefault (a_ty e) |}) in *.
+      assert (Hnew' : forall x', In x' xr -> tlookup x' (Dc ++ [(x, a_ty e)]) = None /\ tmem x' L = false /\ tmem x' (map fst D) = false).
+      { intros x' Hx'. destruct (Hnew x' (or_intror Hx')) as (A & B & C). split; [|auto].
+        rewrite tlookup_app, A. cbn. assert (x' <> x) by (intros ->; contradiction).
+        apply text_eqb_neq in H. rewrite H. reflexivity. }
+      assert (Hes' : forall e0, In e0 er -> fv_ok D L e0 = true /\ In e0 (prog_anns P)) by (intros; apply Hes; right; assumption).
+      assert (Hgsr' : forall g0, In g0 gsr -> ~ In (g_name g0) xr) by (intros g0 H0 H1; apply (Hgsr g0 H0); right; exact H1).
+      destruct (closed_const e) eqn:Hcc.
+      + (* constant: already in the global initialiser *)
+        pose proof (closed_const_fv e Hcc) as Hfv0.
+        assert (Hs0 : sem (a_id e) [] = Some v).
+        { unfold StmtSem.peval in Ev. rewrite Hfv0 in Ev. exact Ev. }
+        assert (Hg : tlookup x sgc = Some (a_ty e, v)).
+        { pose proof (HP g (or_introl eq_refl)) as Hg. unfold pend_val in Hg. cbn in Hg. rewrite Hs0 in Hg. exact Hg. }
+        assert (HR1 : Rel (Dc ++ [(x, a_ty e)]) L (pset x v rhoc) sgc).
+        { eapply Rel_set; [exact HRc|apply set_new; exact HxD| | | |]; eauto. }
+        destruct (IH er vr _ _ sgc gsr Hlen Evr Hes' Hnd' Hnew' HR0 HR1) as (sg1 & F1 & R1 & C1 & K1).
+        { intros g' Hg'. apply HP. right. exact Hg'. }
+        { exact Hgsr'. }
+        exists sg1. split; [eapply Fr_incl; [|exact F1]; apply incl_tl, incl_refl|].
+        split; [rewrite <- app_assoc in R1; exact R1|]. split; [|exact K1].
+        constructor; [|exact C1]. unfold const_ok. cbn. exists v. split; [exact Hs0|]. split; [exact Hv|].
+        intro s0. unfold StmtSem.cev. destruct (Hinfo e Hin) as (b & Hb & Hfb). rewrite Hb, Hfb, Hfv0. exact Hs0.
+      + (* run-time initialiser *)
+        assert (Hg : tlookup x sgc = Some (a_ty e, default_val (a_ty e))).
+        { exact (HP g (or_introl eq_refl)). }
+        destruct (cupd_spec (x :: xr) x v sgc _ _ Hg) as (b & Hb & L1 & L2 & HF).
+        { cbn. rewrite text_eqb_refl. reflexivity. }
+        rewrite (conv_has_ty _ _ Hv) in L1.
+        assert (HR0' : Rel D L rho b).
+        { eapply Rel_frame; [exact HR0|]. intros y [Hy|Hy]; apply L2; intros ->; congruence. }
+        assert (HR1 : Rel (Dc ++ [(x, a_ty e)]) L (pset x v rhoc) b).
+        { eapply Rel_set; [exact HRc|apply set_new; exact HxD| | | |]; eauto. }
+        destruct (IH er vr _ _ b gsr Hlen Evr Hes' Hnd' Hnew' HR0' HR1) as (sg1 & F1 & R1 & C1 & K1).
+        { intros g' Hg'. rewrite L2; [apply HP; right; exact Hg'|].
+          apply in_app_or in Hg' as [Hg'|Hg'].
+          - apply tup_globals_names in Hg'. intros E. rewrite E in Hg'. contradiction.
+          - intros E. apply (Hgsr g' Hg'). left. symmetry. exact E. }
+        { exact Hgsr'. }
+        exists sg1. split; [eapply Fr_trans_same; [exact HF|eapply Fr_incl; [|exact F1]; apply incl_tl, incl_refl]|].
+        split; [rewrite <- app_assoc in R1; exact R1|]. split; [constructor; [unfold const_ok; cbn; reflexivity|exact C1]|].
+        intros restC s2 e2 o F2 HC. destruct (K1 restC s2 e2 o F2 HC) as (F & HCF).
+        exists (S F). intros F' HF'. destruct F' as [|F'']; [lia|].
+        cbn [app]. rewrite cexec_assign. cbn [ceval]. rewrite Hc, Hb. cbn [ccont]. rewrite HCF by lia. reflexivity.
+  Qed.
+
   Lemma lastn_Fr N (sg s1 : StmtSem.cstore) : Fr N sg s1 -> lastn (length sg) s1 = s1.
   Proof. intro H. apply lastn_all. eapply Fr_length; eauto. Qed.
 
   Lemma sim_all : forall f, sim_at f.
   Proof.
-    induction f as [|f IH]; intros ps top lm gf D L D' rho sg rho' tr o HG Han Hau HR HP HE; [discriminate|].
+    induction f as [|f IH]; intros ps top lm gf D L D' rho sg rho' tr o Htup HG Han Hau HR HP HE; [discriminate|].
     destruct ps as [|p rest].
     - (* nil *)
       rewrite pexec_nil in HE. inversion HE; subst.
@@ -159,6 +237,9 @@ Section Sim.
     - apply g_block_cons_inv in HG as (gf' & D1 & -> & HS & HG).
       cbn [anns_in augs_in] in Han, Hau.
       apply incl_app_inv in Han as [Han1 Han2]. apply incl_app_inv in Hau as [Hau1 Hau2].
+      assert (Htr : implb lm (no_top_tuple rest) = true).
+      { destruct lm; [|reflexivity]. cbn [implb no_top_tuple forallb] in Htup |- *.
+        apply andb_true_iff in Htup as [_ Htup]. exact Htup. }
       pose proof (wr_dom_step' _ _ _ _ _ _ HS) as HWD.
       pose proof (g_step_ext _ _ _ _ _ _ HS) as HEXT.
       destruct p.
@@ -181,7 +262,7 @@ Section Sim.
           rewrite (trm_cons_old top lm D x e rest _ Hl) in HP |- *. cbn [fst snd] in HP |- *. rewrite tr1_unfold.
           eapply (sim_tail f IH top lm gf' D D L D' (pset x v rho) sg b (PAssign x e) rest
                     [NAssign x (XE (a_id e))] [] [] 0%nat rho2 e2 o2);
-          [exact HG|exact Han2|exact Hau2| | | | | | | |exact Er].
+          [exact Htr|exact HG|exact Han2|exact Hau2| | | | | | | |exact Er].
           -- apply ext_refl.
           -- eapply Rel_set; [split; eassumption|apply set_old; exact Hl| | | |]; eauto.
           -- exact HP.
@@ -199,7 +280,7 @@ Section Sim.
             { eapply Rel_set; [exact HR|apply set_new; exact Hl|exact HxL|exact Hv| |].
               - unfold s1. cbn [tlookup]. rewrite text_eqb_refl. reflexivity.
               - intros y Hy. unfold s1. cbn [tlookup]. apply text_eqb_neq in Hy. rewrite Hy. reflexivity. }
-            destruct (IH rest true true gf' _ L D' _ s1 rho2 e2 o2 HG Han2 Hau2 HR1) as (loc & sgr & F2 & C2 & Fr2 & R2' & _ & N2);
+            destruct (IH rest true true gf' _ L D' _ s1 rho2 e2 o2 Htr HG Han2 Hau2 HR1) as (loc & sgr & F2 & C2 & Fr2 & R2' & _ & N2);
               [intros g []|exact Er|].
             destruct (Fr_cons_inv' _ _ _ _ Fr2) as (q & sg2 & -> & Hq & Fr2').
             exists (loc ++ [q]), sg2, (S F2). split; [|split; [|split; [|split]]].
@@ -225,7 +306,7 @@ Section Sim.
              { eapply Rel_set; [exact HR|apply set_new; exact Hl| | | |]; eauto. }
              assert (HP1 : Pend (snd (trm true false (D ++ [(x, a_ty e)]) rest)) sg).
              { intros g' Hg'. apply HP. right. exact Hg'. }
-             destruct (IH rest true false gf' _ L D' _ sg rho2 e2 o2 HG Han2 Hau2 HR1 HP1 Er) as (loc & sg' & F2 & C2 & Fr2 & R2' & L2 & N2).
+             destruct (IH rest true false gf' _ L D' _ sg rho2 e2 o2 eq_refl HG Han2 Hau2 HR1 HP1 Er) as (loc & sg' & F2 & C2 & Fr2 & R2' & L2 & N2).
              exists loc, sg', F2. split; [|split; [|split; [|split]]].
              ++ exact C2.
              ++ cbn [wr_in]. apply Fr_app_r. exact Fr2.
@@ -247,7 +328,7 @@ Section Sim.
                with ([g] ++ snd (trm true false (D ++ [(x, a_ty e)]) rest)).
              eapply (sim_tail f IH true false gf' D (D ++ [(x, a_ty e)]) L D' (pset x v rho) sg b (PAssign x e) rest
                     [NAssign x (XE (a_id e))] [g] [] 0%nat rho2 e2 o2);
-          [exact HG|exact Han2|exact Hau2| | | | | | | |exact Er].
+          [exact Htr|exact HG|exact Han2|exact Hau2| | | | | | | |exact Er].
              ++ apply ext_snoc.
              ++ eapply Rel_set; [exact HR|apply set_new; exact Hl| | | |]; eauto.
              ++ intros g' Hg'. apply HP. right. exact Hg'.
@@ -278,7 +359,7 @@ Section Sim.
         rewrite (trm_cons_other top lm D (PAug x op e t_after) rest I) in HP |- *. cbn [fst snd] in HP |- *. rewrite tr1_unfold.
         eapply (sim_tail f IH top lm gf' D D L D' (pset x w rho) sg b (PAug x op e t_after) rest
                   [NAssign x (XAug x op (a_id e))] [] [] 0%nat rho2 e2 o2);
-          [exact HG|exact Han2|exact Hau2| | | | | | | |exact Er].
+          [exact Htr|exact HG|exact Han2|exact Hau2| | | | | | | |exact Er].
         * apply ext_refl.
         * eapply Rel_set; [split; eassumption|apply set_old; exact Hl| | | |]; eauto.
         * exact HP.
@@ -287,8 +368,38 @@ Section Sim.
         * intros F' restC _. cbn [app]. rewrite cexec_assign. cbn [ceval].
           rewrite (clook_tlookup _ _ _ _ P3), Hc, Ew, Hb. reflexivity.
         * constructor.
-      + (* ---------- PTuple: outside the guard ---------- *)
-        discriminate.
+      + (* ---------- PTuple: declaration of new globals at top level of the setup part ---------- *)
+        cbn [g_step] in HS. destruct (top && tuple_decl_ok D L xs es) eqn:Hk; [|discriminate].
+        inversion HS; subst D1. clear HS. apply andb_true_iff in Hk as [-> Hk].
+        destruct lm; [cbn in Htup; discriminate|].
+        destruct (tuple_decl_ok_inv _ _ _ _ Hk) as (Hlen & Hfvs & Hnew & Hnd).
+        rewrite pexec_tuple in HE. rewrite Hlen, Nat.leb_refl, firstn_all in HE.
+        destruct (pevals sem es rho) as [vs|] eqn:Evs; [|discriminate]. cbn [pcont] in HE.
+        destruct (pexec f (pbinds xs vs rho) rest) as [[[rho2 e2] o2]|] eqn:Er; [|discriminate].
+        inversion HE; subst rho' tr o. clear HE.
+        rewrite anns_of_unfold in Han1.
+        rewrite (trm_cons_tuple D L xs es rest Hk) in HP |- *. cbn [fst snd] in HP |- *.
+        set (D1 := D ++ combine xs (map a_ty es)) in *.
+        assert (HgsF : forall g, In g (snd (trm true false D1 rest)) -> ~ In (g_name g) xs).
+        { intros g Hg HI. apply trm_fresh in Hg. unfold D1 in Hg.
+          rewrite map_app, tmem_app, map_fst_combine in Hg by (rewrite map_length; exact Hlen).
+          apply orb_false_iff in Hg as [_ Hg]. apply tmem_In in HI. congruence. }
+        destruct (tuple_head D L rho xs es vs D rho sg (snd (trm true false D1 rest)) Hlen Evs) as (sg1 & F1 & R1 & C1 & K1).
+        { intros e He. split; [rewrite forallb_forall in Hfvs; apply Hfvs; exact He|apply Han1; exact He]. }
+        { apply nodupb_NoDup. exact Hnd. }
+        { intros x Hx. destruct (Hnew x Hx) as [A B]. split; [apply tmem_false_lookup; exact A|auto]. }
+        { exact HR. } { exact HR. } { exact HP. } { exact HgsF. }
+        assert (HP1 : Pend (snd (trm true false D1 rest)) sg1).
+        { eapply Pend_frame; [|exact F1|].
+          - intros g Hg. apply HP. apply in_or_app. right. exact Hg.
+          - intros g Hg. apply tmem_false. apply HgsF. exact Hg. }
+        destruct (IH rest true false gf' D1 L D' _ sg1 rho2 e2 o2 eq_refl HG Han2 Hau2 R1 HP1 Er) as (loc & sg' & F2 & C2 & Fr2 & R2 & L2 & N2).
+        destruct (K1 _ _ _ _ F2 C2) as (F & HCF).
+        exists loc, sg', F. split; [exact HCF|]. split; [|split; [|split]].
+        * cbn [wr_in]. rewrite wr_unfold. eapply Fr_trans_same; [apply Fr_app_l; exact F1|apply Fr_app_r; exact Fr2].
+        * eapply Rel_mono; [apply ext_app|exact R2].
+        * exact L2.
+        * intro Ho. destruct (N2 Ho) as [N21 N22]. split; [exact N21|]. apply Forall_app. auto.
       + (* ---------- PIf ---------- *)
         rewrite pexec_if in HE.
         destruct (ppick sem rho els ((c, body) :: elifs)) as [b|] eqn:Epick; [|discriminate].
@@ -331,7 +442,7 @@ Section Sim.
             + apply (args_agree D L rho sg _ HR H2). }
         destruct (pick_agree rho sg els _ b CONDS Epick) as [Hcp Hb].
         destruct (GOOD b Hb) as (Gb & Anb & Aub & Wrb).
-        destruct (IH b false false gf' D L D rho sg rho1 e1 o1 Gb Anb Aub HR) as (loc0 & s1 & Fb & Cb & Frb & Rb & Hl0 & _); [intros g []|exact Eb|].
+        destruct (IH b false false gf' D L D rho sg rho1 e1 o1 eq_refl Gb Anb Aub HR) as (loc0 & s1 & Fb & Cb & Frb & Rb & Hl0 & _); [intros g []|exact Eb|].
         rewrite (Hl0 eq_refl) in Cb. cbn [app] in Cb.
         cbn [trm fst] in Cb.
         assert (HEAD : forall F', (Fb <= F')%nat ->
@@ -345,7 +456,7 @@ Section Sim.
           inversion HE; subst rho' tr o. clear HE.
           eapply (sim_tail f IH top lm gf' D D L D' rho1 sg s1 (PIf c body elifs els) rest
                     [NIf ((a_id c, trn body) :: trnb elifs) (trn els)] [] e1 Fb rho2 e2 o2);
-          [exact HG|exact Han2|exact Hau2| | | | | | | |exact Er].
+          [exact Htr|exact HG|exact Han2|exact Hau2| | | | | | | |exact Er].
           -- apply ext_refl.
           -- exact Rb.
           -- exact HP.
@@ -375,7 +486,7 @@ Section Sim.
         pose proof (trm_cons_other top lm D (PWhile c body) rest I) as HTRM. rewrite tr1_unfold in HTRM.
         destruct (truthy v) eqn:Etv.
         * destruct (pexec f rho body) as [[[rho1 e1] o1]|] eqn:Eb; [|discriminate].
-          destruct (IH body false false gf' D L D rho sg rho1 e1 o1 H1 Anb Hau1 HR) as (loc0 & s1 & Fb & Cb & Frb & Rb & Hl0 & _); [intros g []|exact Eb|].
+          destruct (IH body false false gf' D L D rho sg rho1 e1 o1 eq_refl H1 Anb Hau1 HR) as (loc0 & s1 & Fb & Cb & Frb & Rb & Hl0 & _); [intros g []|exact Eb|].
           rewrite (Hl0 eq_refl) in Cb. cbn [app] in Cb.
           cbn [trm fst] in Cb.
           assert (BLK : forall F', (Fb <= F')%nat -> cblock sem augsem info F' sg (trn body) = Some (s1, e1, o1)).
@@ -393,7 +504,7 @@ Section Sim.
              { cbn [anns_in]. rewrite anns_of_unfold. apply incl_app; assumption. }
              assert (Hau' : incl (augs_in (PWhile c body :: rest)) (prog_augs P)).
              { cbn [augs_in]. rewrite augs_of_unfold. apply incl_app; assumption. }
-             destruct (IH _ top lm _ D L D' rho1 s1 rho2 e2 o2 HG' Han' Hau' Rb HP1 Er) as (loc & s2 & F2 & C2 & Fr2 & R2 & L2 & N2).
+             destruct (IH _ top lm _ D L D' rho1 s1 rho2 e2 o2 Htup HG' Han' Hau' Rb HP1 Er) as (loc & s2 & F2 & C2 & Fr2 & R2 & L2 & N2).
              rewrite HTRM in *. cbn [fst snd app] in *.
              exists loc, s2, (S (Nat.max Fb F2)). split; [|split; [|split; [|split]]].
              ++ intros F' HF'. destruct F' as [|F'']; [lia|]. rewrite cexec_while, Hcv, Etv.
@@ -408,7 +519,7 @@ Section Sim.
              rewrite HTRM in HP |- *. cbn [fst snd] in HP |- *.
              eapply (sim_tail f IH top lm gf' D D L D' rho1 sg s1 (PWhile c body) rest
                        [NWhile (a_id c) (trn body)] [] e1 Fb rho2 e2 o2);
-          [exact HG|exact Han2|exact Hau2| | | | | | | |exact Er].
+          [exact Htr|exact HG|exact Han2|exact Hau2| | | | | | | |exact Er].
              ++ apply ext_refl.
              ++ exact Rb.
              ++ exact HP.
@@ -421,7 +532,7 @@ Section Sim.
           change tr with ([] ++ tr).
           eapply (sim_tail f IH top lm gf' D D L D' rho sg sg (PWhile c body) rest
                     [NWhile (a_id c) (trn body)] [] [] 0%nat rho' tr o);
-          [exact HG|exact Han2|exact Hau2| | | | | | | |exact HE].
+          [exact Htr|exact HG|exact Han2|exact Hau2| | | | | | | |exact HE].
           -- apply ext_refl.
           -- exact HR.
           -- exact HP.
@@ -475,7 +586,7 @@ Section Sim.
             assert (Hlt : (i <? n) = false) by (apply Z.ltb_ge; lia). rewrite Hlt. reflexivity.
           - cbn [piter] in HI.
             destruct (pexec f (pset x (VI i) rho0) body) as [[[rhoB eB] oB]|] eqn:Eb; [|discriminate].
-            destruct (IH body false false gf' D (x :: L) D (pset x (VI i) rho0) ((x, (TyInt, VI i)) :: sg0) rhoB eB oB H8 Anb Hau1)
+            destruct (IH body false false gf' D (x :: L) D (pset x (VI i) rho0) ((x, (TyInt, VI i)) :: sg0) rhoB eB oB eq_refl H8 Anb Hau1)
               as (loc0 & s1 & Fb & Cb & Frb & Rb & Hl0 & _); [apply Rel_push; assumption|intros g []|exact Eb|].
             rewrite (Hl0 eq_refl) in Cb. cbn [app] in Cb.
             cbn [trm fst] in Cb.
@@ -505,7 +616,7 @@ Section Sim.
         rewrite (trm_cons_other top lm D (PFor x cnt body) rest I) in HP |- *. cbn [fst snd] in HP |- *. rewrite tr1_unfold.
         eapply (sim_tail f IH top lm gf' D D L D' rho1 sg sgE (PFor x cnt body) rest
                   [NFor x (a_id cnt) (trn body)] [] e1 (Nat.max FE (Z.to_nat n)) rho2 e2 o2);
-          [exact HG|exact Han2|exact Hau2| | | | | | | |exact Er].
+          [exact Htr|exact HG|exact Han2|exact Hau2| | | | | | | |exact Er].
         * apply ext_refl.
         * exact RE.
         * exact HP.
@@ -534,7 +645,7 @@ Section Sim.
         rewrite (trm_cons_other top lm D (PWrite e) rest I) in HP |- *. cbn [fst snd] in HP |- *. rewrite tr1_unfold.
         eapply (sim_tail f IH top lm gf' D D L D' rho sg sg (PWrite e) rest
                   [NWrite (a_id e)] [] [EvSer v] 0%nat rho2 e2 o2);
-          [exact HG|exact Han2|exact Hau2| | | | | | | |exact Er].
+          [exact Htr|exact HG|exact Han2|exact Hau2| | | | | | | |exact Er].
         * apply ext_refl.
         * exact HR.
         * exact HP.
@@ -552,7 +663,7 @@ Section Sim.
         rewrite (trm_cons_other top lm D (PSleep e) rest I) in HP |- *. cbn [fst snd] in HP |- *. rewrite tr1_unfold.
         eapply (sim_tail f IH top lm gf' D D L D' rho sg sg (PSleep e) rest
                   [NSleep (a_id e)] [] [EvDelay v] 0%nat rho2 e2 o2);
-          [exact HG|exact Han2|exact Hau2| | | | | | | |exact Er].
+          [exact Htr|exact HG|exact Han2|exact Hau2| | | | | | | |exact Er].
         * apply ext_refl.
         * exact HR.
         * exact HP.
@@ -571,12 +682,12 @@ Section Sim.
         destruct (closed_const e) eqn:Hcc.
         * (* a constant expression statement is dropped on both sides *)
           cbn [app] in *.
-          destruct (IH rest top lm gf' D L D' rho sg rho2 e2 o2 HG Han2 Hau2 HR HP Er) as (loc & sg' & F2 & C2 & Fr2 & R2 & L2 & N2).
+          destruct (IH rest top lm gf' D L D' rho sg rho2 e2 o2 Htr HG Han2 Hau2 HR HP Er) as (loc & sg' & F2 & C2 & Fr2 & R2 & L2 & N2).
           exists loc, sg', F2. split; [exact C2|]. split; [cbn [wr_in]; apply Fr_app_r; exact Fr2|].
           split; [|split]; assumption.
         * eapply (sim_tail f IH top lm gf' D D L D' rho sg sg (PExprS e) rest
                     [NExprS (a_id e)] [] [EvX (a_id e) v] 0%nat rho2 e2 o2);
-          [exact HG|exact Han2|exact Hau2| | | | | | | |exact Er].
+          [exact Htr|exact HG|exact Han2|exact Hau2| | | | | | | |exact Er].
           -- apply ext_refl.
           -- exact HR.
           -- exact HP.
